@@ -755,6 +755,48 @@ func init() {
 	register(&Engine{Prop: "C12", Doc: "worker pool", Gated: true, Run: runC12, Replay: func(c *Cfg, s json.RawMessage) { replayPool(c, "C12", s) }})
 }
 
+// equalPayloadLimitRun: a concurrent batch over string items of which several (or all) are EQUAL, each execution
+// blocking until the controller lets go: at the first quiescent point min(c, n) executions are parked — equal payloads
+// are separate items and each occupies a slot of its own.
+func equalPayloadLimitRun(cc, n int, allEqual bool) (parked int, incon string) {
+	defer setGCOff()()
+	self := quiesce.Self()
+	var st quiesce.Stats
+	var in atomic.Int32
+	release := make(chan struct{})
+	bn := flyt.NewBatchNode(flyt.WithPrepFuncAny(func(ctx context.Context, s *flyt.SharedStore) (any, error) {
+		l := make([]string, n)
+		for i := range l {
+			l[i] = "same prompt"
+			if !allEqual && i%2 == 1 {
+				l[i] = "other prompt"
+			}
+		}
+		return l, nil
+	}), flyt.WithBatchConcurrency(cc)).WithExecFuncAny(func(ctx context.Context, v any) (any, error) {
+		in.Add(1)
+		<-release
+		return v, nil
+	})
+	done := make(chan struct{})
+	go func() {
+		defer close(done)
+		_, _ = flyt.Run(context.Background(), bn, flyt.NewSharedStore())
+	}()
+	_, ok := quiesce.Wait(self, quiesceBudget, &st)
+	parked = int(in.Load())
+	close(release)
+	select {
+	case <-done:
+	case <-time.After(60 * time.Second):
+		return parked, "batch did not finish after the executions were released"
+	}
+	if !ok {
+		return parked, "quiescence not reached"
+	}
+	return parked, ""
+}
+
 func runC08(c *Cfg) {
 	r := c.Rep
 	if RaceEnabled {
@@ -765,6 +807,31 @@ func runC08(c *Cfg) {
 			return &PoolCase{Family: "race-pool", Workers: rg.IntN(18) - 1, Tasks: rg.IntN(300), Submitters: 1 + rg.IntN(4), Rounds: 1 + rg.IntN(3), SleepUs: 30, PSeed: rg.Uint64()}
 		}, func(i int, cs *PoolCase, o *PoolObs) { r.Count("race.pool_runs", 1); r.Nontrivial(fmt.Sprintf("rp %d %d %d", cs.Workers, cs.Tasks, cs.Submitters)) }, "C08")
 		return
+	}
+	// equal payloads are separate items: c executions that all block run simultaneously also when their payloads are equal
+	for _, cc := range []int{2, 3, 5} {
+		for _, n := range []int{cc, 2*cc + 1} {
+			for _, all := range []bool{true, false} {
+				if !c.Mine(cc + n) {
+					continue
+				}
+				got, incon := equalPayloadLimitRun(cc, n, all)
+				r.Eval()
+				if incon != "" {
+					r.Incon(incon)
+					continue
+				}
+				r.Count("equal_payloads.runs", 1)
+				if want := minInt(cc, n); got != want {
+					key := "under-use:equal-payloads"
+					if got > want {
+						key = "over-limit:equal-payloads"
+					}
+					r.Violate("C08", "C08:"+key, fmt.Sprintf("concurrent batch (concurrency %d) over %d string items (all equal: %v), every execution blocking: %d executions are in flight when nothing moves any more, want min(c, n) = %d", cc, n, all, got, want), map[string]any{"family": "equal-payloads-limit", "c": cc, "n": n, "all_equal": all})
+				}
+				r.Nontrivial(fmt.Sprintf("ep %d %d %v", cc, n, all))
+			}
+		}
 	}
 	orders := c.Pick(3, 100)
 	var cases []*BatchCase
